@@ -1550,7 +1550,27 @@ def bi_enumerate(it, args, kwargs, pc):
     start = args[1] if len(args) > 1 else kwargs.get("start", 0)
     vals = _seq_values(it, args[0], pc)
     if vals is None:
-        raise Unsupported("enumerate over optional elements")
+        # optional elements: the index of an element is the number of PRESENT elements before it -
+        # a guarded union over the possible counts (dynamic programme over the presences)
+        src = args[0]
+        if not isinstance(src, SymList) or not isinstance(start, int) or len(src.elems) > 12:
+            raise Unsupported("enumerate over optional elements")
+        out = []
+        counts = {0: vc.CT}  # number of present elements so far -> condition
+        for pres, v in src.elems:
+            alts = [(vc.c_any(c), start + k) for k, c in sorted(counts.items()) if not vc.c_is_false(c)]
+            idx = alts[0][1] if len(alts) == 1 else vc.mk_union(alts, sweep=False)
+            out.append([pres, SymList([[vc.CT, idx], [vc.CT, v]], is_tuple=True)])
+            nxt = {}
+            for k, c in counts.items():
+                a = vc.c_and(c, pres)
+                b = vc.c_and(c, vc.c_not(pres))
+                if not vc.c_is_false(a):
+                    nxt[k + 1] = vc.c_or(nxt[k + 1], a) if k + 1 in nxt else a
+                if not vc.c_is_false(b):
+                    nxt[k] = vc.c_or(nxt[k], b) if k in nxt else b
+            counts = nxt
+        return SymIter(out)
     I = _I()
     out = []
     for i, v in enumerate(vals, start):
